@@ -188,7 +188,12 @@ class NumberedObjectCollection(ABC):
         :param delete: the object to delete
         :type delete: Numbered_MCNP_Object
         """
-        obj = self._objects.pop(self._objects.index(delete))
+        for index, obj in enumerate(self._objects):
+            if obj is delete:
+                break
+        else:
+            raise ValueError(f"{delete} is not in the collection: {type(self)}")
+        del self._objects[index]
         self.__evict(obj)
 
     def __iter__(self):
@@ -404,7 +409,9 @@ class NumberedObjectCollection(ABC):
         return self
 
     def __contains__(self, other):
-        return other in self._objects
+        # the collection holds objects, not values: an equal copy of a member (same number,
+        # same data) is not a member, and cannot become one (its number is taken)
+        return any(other is obj for obj in self._objects)
 
     def get(self, i: int, default=None) -> (Numbered_MCNP_Object, None):
         """
